@@ -210,7 +210,7 @@ def _job(job):
     res_steps = []
     rc = 0; out = b''
     for cfg, env_extra in job['steps']:
-        env = dict(os.environ, DISTRIBUTION=cfg.dist, LC_ALL='C')
+        env = dict(os.environ, DISTRIBUTION=cfg.dist, LC_ALL='C', GOMAXPROCS='1')
         env.pop('VERIF_MAPX', None)
         env.update(env_extra or {})
         r = subprocess.run([_W['bins'][job.get('bin', 'inst')]] + args_of(cfg), cwd=wdir, env=env,
